@@ -38,4 +38,11 @@ CHECKS = {
         "assumptions": ["delegate executor, callable outcomes, policy answers and the clock are environment",
                         "integer-valued delays in the lockstep histories; dyadic rationals in the kernel differential"],
     },
+    "C06": {
+        "modules": ["p_c06r"],
+        "rule": "retry: seeded scenarios as C05 plus 0-2 cancel() calls per future at random virtual delays / after k delegate "
+                "submissions, from separate threads; every history replayed on Model/Retry.v; distinct = distinct event traces; "
+                "non-trivial = a cancel() call was issued and a preemption occurred",
+        "assumptions": ["delegate executor, callable outcomes, policy answers and the clock are environment"],
+    },
 }
